@@ -66,7 +66,13 @@ fn record_history(kc: &KCase) -> Result<Recorded, Fail> {
     let r = (|| -> Result<Recorded, Fail> {
         let mut drv = Driver::with_factory(Backend::Sqlite, kc.via, &kc.case.cfg, None, sqlite_factory(dpath.clone()), None).map_err(|e| Fail::Violation(format!("opening storage: {e:#}")))?;
         drv.db_path = Some(dpath.clone());
-        let mut h = Hist::with_driver(&kc.case, drv, Oracles::default());
+        // what is acknowledged must already be in the database at the moment of the
+        // acknowledgement (a crash right then must not lose it): the accepted version is stored,
+        // the snapshot the window rule accepts is stored
+        let mut or = Oracles::default();
+        or.c02 = true;
+        or.c10 = true;
+        let mut h = Hist::with_driver(&kc.case, drv, or);
         let mut ranges = vec![(0usize, rec.len())];
         let mut dumps = vec![];
         let mut models = vec![];
@@ -84,7 +90,10 @@ fn record_history(kc: &KCase) -> Result<Recorded, Fail> {
             }
             let s = rec.len();
             let n0 = h.steps.len();
-            h.step(i, op, &mut quiet)?;
+            h.step(i, op, &mut quiet).map_err(|f| match f {
+                Fail::Violation(m) => Fail::Violation(format!("at the moment request {i} ({}) was acknowledged, its effect was not (or not correctly) in the database - a crash right then loses it: {m}", op.kind())),
+                o => o,
+            })?;
             let e = rec.len();
             rec.pause();
             let d = normalise(h.drv.api_dump(&h.clients, &h.ids).map_err(|e| Fail::Violation(format!("dump: {e:#}")))?);
@@ -329,7 +338,7 @@ fn kind_name(k: &OpK) -> &'static str {
 
 fn sized_bytes() -> impl Strategy<Value = BytesSpec> {
     // transactions spanning 1, 2, ~10, ~100 pages
-    (prop_oneof![5 => 1u32..200, 3 => 3000u32..9000, 2 => 30_000u32..50_000, 1 => 300_000u32..450_000], 0u8..case::N_CLASSES, 0u32..65536).prop_map(|(len, class, seed)| BytesSpec { len, class, seed })
+    (prop_oneof![10 => 1u32..200, 6 => 3000u32..9000, 4 => 30_000u32..50_000, 2 => 300_000u32..450_000, 1 => 1_050_000u32..1_400_000], 0u8..case::N_CLASSES, 0u32..65536).prop_map(|(len, class, seed)| BytesSpec { len, class, seed })
 }
 
 fn kcase(tier: Tier) -> BoxedStrategy<KCase> {
@@ -372,7 +381,7 @@ fn canonical(tier: Tier) -> Vec<KCase> {
     let d = |s: u32, len: u32| BytesSpec { len, class: 2, seed: s };
     let mut out = vec![];
     for via in [Via::Lib, Via::Http] {
-        for big in [40u32, 5000, tier.pick(40_000, 420_000)] {
+        for big in [40u32, 5000, tier.pick(40_000, 420_000), 2_200_000] {
             let ops = vec![
                 Op::AddVersion { c: 0, parent: IdRef::Nil, data: d(1, 30) },
                 Op::AddVersion { c: 0, parent: IdRef::Latest(0), data: d(2, big) },
